@@ -107,6 +107,28 @@ func (e *Env) driveStates(tag string, states []emitted, judgeHist bool, workers 
 	var all []*Obs
 	var stats driveStats
 	t0 := time.Now()
+	// a job is one state with a chunk of its alphabet: the witness history is
+	// replayed per job (cheap) so that wide alphabets spread over all workers
+	type job struct {
+		idx    int
+		lo, hi int
+		first  bool
+	}
+	const chunk = 12
+	var jobList []job
+	for i, st := range states {
+		if len(st.Alpha) == 0 {
+			jobList = append(jobList, job{i, 0, 0, true})
+			continue
+		}
+		for lo := 0; lo < len(st.Alpha); lo += chunk {
+			hi := lo + chunk
+			if hi > len(st.Alpha) {
+				hi = len(st.Alpha)
+			}
+			jobList = append(jobList, job{i, lo, hi, lo == 0})
+		}
+	}
 	jobs := make(chan int)
 	var firstErr atomic.Value
 	var wg sync.WaitGroup
@@ -114,12 +136,13 @@ func (e *Env) driveStates(tag string, states []emitted, judgeHist bool, workers 
 		wg.Add(1)
 		go func(w int) {
 			defer wg.Done()
-			for idx := range jobs {
+			for jx := range jobs {
 				if firstErr.Load() != nil {
 					continue
 				}
-				st := states[idx]
-				root := filepath.Join(e.Scratch, fmt.Sprintf("%s-w%d-s%d", tag, w, idx))
+				jb := jobList[jx]
+				st := states[jb.idx]
+				root := filepath.Join(e.Scratch, fmt.Sprintf("%s-w%d-j%d", tag, w, jx))
 				store, err := newStore(e.Ergo, root)
 				if err != nil {
 					firstErr.Store(err)
@@ -127,34 +150,35 @@ func (e *Env) driveStates(tag string, states []emitted, judgeHist bool, workers 
 				}
 				sp := newStepper(store)
 				var local []*Obs
-				for k, c := range st.Hist {
+				for _, c := range st.Hist {
 					o := sp.step(c, tag+"/hist")
-					if judgeHist || len(st.Alpha) == 0 {
-						_ = k
+					if jb.first && (judgeHist || len(st.Alpha) == 0) {
 						local = append(local, o)
 					}
 				}
-				for k, c := range st.Alpha {
+				for k := jb.lo; k < jb.hi; k++ {
 					froot := fmt.Sprintf("%s-f%d", root, k)
 					fs, err := sp.fork(froot)
 					if err != nil {
 						firstErr.Store(err)
 						break
 					}
-					o := fs.step(c, tag+"/alpha")
+					o := fs.step(st.Alpha[k], tag+"/alpha")
 					local = append(local, o)
 					_ = os.RemoveAll(froot)
 				}
 				_ = os.RemoveAll(root)
 				mu.Lock()
 				all = append(all, local...)
-				stats.States++
-				stats.Histories++
+				if jb.first {
+					stats.States++
+					stats.Histories++
+				}
 				mu.Unlock()
 			}
 		}(w)
 	}
-	for i := range states {
+	for i := range jobList {
 		jobs <- i
 	}
 	close(jobs)
